@@ -66,7 +66,7 @@ JOBS += [
 ]
 META = {
  "level": "proof",
- "level_text": "Sequential contracts on the real run-queue operations against the abstract view ptr[base..top): length change, position of the new/removed element, preservation of every other element (witness index) also across re-centring, well-formedness, lock protocol; capacity symbolic (64 in the quick tier, the real 131072 in the thorough tier).",
+ "level_text": "Sequential contracts on the real run-queue operations against the abstract view ptr[base..top): length change, position of the new/removed element, preservation of every other element (witness index) also across re-centring, well-formedness, lock protocol; capacity symbolic in [2, 64] in the quick tier and [2, 512] in the thorough tier (the operations are loop free, the capacity enters only through index arithmetic; 2048 and the real 131072 did not finish); owner pop against an exact SC model of thieves and thief take against the owner (hand-shake on base/top with the fence as interference point); the scheduler glue (sched_loop, default steal, yield) resumes every obtained thread exactly once; init at the real capacity, clear, pass.",
  "level_note": "Trusted: cbmc 6.11, memmove by contract (witness), the queue lock by contract (C04 proves the spin lock). x86-TSO store buffering and fence strength are outside contracts; liveness not decided.",
  "trusted_base": ["cbmc 6.11.0 (goto-cc, goto-instrument --dfcc, SAT back end)", "gcc -E of the real headers"],
  "explanation": "work-stealing queue: sequential contracts + owner/thief hand-shake under SC interference",
@@ -76,5 +76,7 @@ META = {
    "a completely full queue (131072 runnable threads on one worker) makes the library abort: excluded",
    "sequentially consistent memory; x86-TSO store buffering (the reason the fence is an xchg) is not modelled, so fence placement/strength is not policed",
    "termination on any number of workers (liveness) not decided",
+   "capacity: the symbolic capacity is bounded by 64 (quick) / 512 (thorough); the real capacity 131072 is used only in the init job",
+   "myth_queue_clear runs at worker start-up / shut-down only: no interference while it holds the lock",
  ],
 }
